@@ -28,6 +28,6 @@ def main(chk):
 MANIFEST = {
     'category': 'proof',
     'technique': 'translator (go/ast + go/types) from encFnLoad/decFnLoad/getExt/fn to Gallina + Coq proofs by exhaustive case analysis over all 2^24 flag vectors + vm_compute correspondence of the mechanism observed per (type, handle) + direct oracle over 16 types x 10 positions x root by value/pointer x 5 formats (hook symmetry, round trip, documented precedence)',
-    'text': 'For ALL flag vectors: encode and decode choose the same mechanism (C17_choice); a custom mechanism is chosen only when both halves exist and the format class fits (C17_both_halves); the choice is the documented precedence time/Raw/RawExt > extension (when looked up) > Selfer > Binary | JSON > Text > kind (C17_precedence); the chosen function is handed a value on which its type assertion succeeds, in every position (C17_cast_ok, C17_position, C17_addr); with inverse hooks a value round-trips through whatever is chosen (C17_rt). The statement that a registered extension is selected on the normal path is refuted on the current tree (C17_ext_refuted, finding F17-1: fn passes checkExt=false) and proved in its guarded form (C17_ext_when_checked).',
+    'text': 'For ALL flag vectors: encode and decode choose the same mechanism (C17_choice); a custom mechanism is chosen only when both halves exist and the format class fits (C17_both_halves); the choice is the documented precedence time/Raw/RawExt > extension (when looked up) > Selfer > Binary | JSON > Text > kind (C17_precedence); the chosen function is handed a value on which its type assertion succeeds, in every position (C17_cast_ok, C17_position, C17_addr); with inverse hooks a value round-trips through whatever is chosen (C17_rt); the builtin type-switch shortcut (top level, fields, elements, map keys/values) is taken on both sides or on neither for every builtin type (C17_builtin_positions, lists translated from encode.base.go / decode.base.go) and, since the repair of F17-2, never for time.Time under TimeNotBuiltin (C17_time_not_builtin, guards translated from encodeBuiltin / decode). The statement that a registered extension is selected on the normal path is refuted on the current tree (C17_ext_refuted, finding F17-1: fn passes checkExt=false) and proved in its guarded form (C17_ext_when_checked).',
     'note': 'Trusted: Coq kernel, the translator choice.go (accepted subset documented in its header), the hook reading typeInfo flags, the harness types/hooks, Go toolchain. Round trip in all positions is established by the harness sweep, not by a theorem about the drivers\' ext framing.',
 }
